@@ -563,10 +563,15 @@ def wiring(rep, meta, f, sfx):
         r.lost("validator::validate_ast")
         return
     called = hirq.called_paths(va["body"])
+    reach = hirq.CallGraph([meta]).reachable([va["path"]])
     for v in ("validate_repetition", "validate_choices", "validate_whitespace_comment", "validate_left_recursion"):
         p = "pest_meta::validator::" + v
         r.instance("validate_ast:" + v, where(va["body"]))
-        if p not in called:
+        ok = p in called or p in reach
+        if not ok and v == "validate_left_recursion":
+            # the wrapper may have been merged into validate_ast: what matters is that the left-recursion walk runs
+            ok = CHECK in reach
+        if not ok:
             r.violation("validate_ast:" + v, where(va["body"]), "validate_ast no longer runs %s" % v)
     # validate_repetition inspects the unbounded repetitions
     vr = meta.fn("pest_meta::validator::validate_repetition")
